@@ -9,7 +9,7 @@ VARIABLES srv, compacted, sent, gone, got, base, nf, np, nw
 svars == <<srv, compacted, sent, gone, got, base, nf, np, nw>>
 mvars == <<vars, svars>>
 
-ConfsA == {[backoff |-> 1, eb |-> <<1>>, ra |-> 2, cli |-> 0, ina |-> 0], [backoff |-> 2, eb |-> <<>>, ra |-> 2, cli |-> 3, ina |-> 2]}
+ConfsA == {[backoff |-> 1, eb |-> <<1>>, ra |-> 2, cli |-> 0, ina |-> 0, limit |-> 0], [backoff |-> 2, eb |-> <<>>, ra |-> 2, cli |-> 3, ina |-> 2, limit |-> 0]}
 MInit == Init /\ srv = 0 /\ compacted = 0 /\ sent = 0 /\ gone = FALSE /\ got = {} /\ base = 0 /\ nf = 0 /\ np = 0 /\ nw = 0
 
 SChange == srv < MaxRV /\ srv' = srv + 1 /\ UNCHANGED <<vars, compacted, sent, gone, got, base, nf, np, nw>>
